@@ -208,6 +208,70 @@ theorem mem_below {rs : Rows} {n : Int} {p : Int × Msg} :
     p ∈ below n rs ↔ p ∈ rs ∧ p.1 < n := by
   simp [below, List.mem_filter]
 
+
+/-- every key of `rs` is above `k` -/
+def AllGt (k : Int) (rs : Rows) : Prop := ∀ p ∈ rs, k < p.1
+
+/-- insertion between a prefix of smaller and a suffix of larger keys -/
+theorem insert_mid (k : Int) (m : Msg) (l1 l2 : Rows) (h1 : AllLt k l1) (h2 : AllGt k l2) :
+    insert k m (l1 ++ l2) = some (l1 ++ [(k, m)] ++ l2) := by
+  induction l1 with
+  | nil =>
+    cases l2 with
+    | nil => rfl
+    | cons q r =>
+      obtain ⟨k', m'⟩ := q
+      have : k < k' := h2 (k', m') (by simp)
+      simp [insert, this]
+  | cons p r ih =>
+    obtain ⟨k', m'⟩ := p
+    have hk : k' < k := h1 (k', m') (by simp)
+    have hr : AllLt k r := fun q hq => h1 q (by simp [hq])
+    have a1 : ¬ k < k' := by omega
+    have a2 : ¬ k = k' := by omega
+    simp [insert, a1, a2, ih hr]
+
+theorem sorted_append {l1 l2 : Rows} (h1 : Sorted l1) (h2 : Sorted l2)
+    (h : ∀ p ∈ l1, ∀ q ∈ l2, p.1 < q.1) : Sorted (l1 ++ l2) := by
+  unfold Sorted
+  rw [List.pairwise_append]
+  exact ⟨h1, h2, h⟩
+
+theorem sorted_append_left {l1 l2 : Rows} (h : Sorted (l1 ++ l2)) : Sorted l1 :=
+  (List.pairwise_append.mp h).1
+
+theorem sorted_append_right {l1 l2 : Rows} (h : Sorted (l1 ++ l2)) : Sorted l2 :=
+  (List.pairwise_append.mp h).2.1
+
+theorem sorted_append_lt {l1 l2 : Rows} (h : Sorted (l1 ++ l2)) :
+    ∀ p ∈ l1, ∀ q ∈ l2, p.1 < q.1 :=
+  (List.pairwise_append.mp h).2.2
+
+/-- a sorted list is its part `≤ e` followed by its part `> e` -/
+theorem split_at (e : Int) {l : Rows} (hs : Sorted l) :
+    l = l.filter (fun p => p.1 ≤ e) ++ l.filter (fun p => e < p.1) := by
+  induction l with
+  | nil => rfl
+  | cons p r ih =>
+    have hs' := List.pairwise_cons.mp hs
+    by_cases hp : p.1 ≤ e
+    · have hn : ¬ e < p.1 := by omega
+      rw [List.filter_cons_of_pos (by simpa using hp), List.filter_cons_of_neg (by simpa using hn),
+        List.cons_append, ← ih hs'.2]
+    · have hgt : e < p.1 := by omega
+      have hall : r.filter (fun q => decide (q.1 ≤ e)) = [] := by
+        rw [List.filter_eq_nil_iff]
+        intro q hq
+        have := hs'.1 q hq
+        simp only [decide_eq_true_eq]; omega
+      have hall2 : r.filter (fun q => decide (e < q.1)) = r := by
+        rw [List.filter_eq_self]
+        intro q hq
+        have := hs'.1 q hq
+        simp only [decide_eq_true_eq]; omega
+      rw [List.filter_cons_of_neg (by simpa using hp), List.filter_cons_of_pos (by simpa using hgt),
+        hall, hall2, List.nil_append]
+
 end Rows
 
 /-! ### the monad -/
